@@ -469,6 +469,33 @@ def check(run: Run) -> None:
                 run.finding("C20.l", "recovering_pass_through:exit-before-live-forwarding", "an evaluation can end before the live input is looked at: " + fl.path_text(w),
                             loc=fl.cfg.describe(w[-1][0]))
 
+    with run.obligation("C20.m", "K2", "replay applies every recorded dictionary tick that carries modifications: delta_has_effect_tsd answers `no effect` (return false) only after "
+                        "it has looked at the delta's `modified` map and found it empty - the lenient-removal arm (`none of the removed keys exists -> false`) must not be "
+                        "reachable for a delta that also updates other keys, or the whole tick is dropped on replay"):
+        fa = R.fn(run, DELTA, "delta_has_effect_tsd")
+        fl = R.flow(run, fa)
+        sub = R.const_locals(fa)                                 # `const auto modified = bundle.at(tsd_delta_modified).as_map();`
+        mod_test = lambda n: n.kind == "cond" and "tsd_delta_modified" in sub(n.label) and "size()" in n.label
+        no_effect = lambda n: n.kind == "stmt" and n.label.replace(" ", "") == "returnfalse" and not (n.ast is not None and fa.line(n.ast) <= first_guard_line)
+        guards0 = [s0 for s0 in fa.body.stmts if isinstance(s0, C.If) and "has_value()" in R.Canon()(s0.cond)]
+        first_guard_line = fa.line(guards0[0]) + 0 if guards0 else -1
+        if guards0:
+            first_guard_line = max(fa.line(x) for x in guards0[0].walk() if getattr(x, "ti", -1) is not None and x.ti >= 0)
+        R.require_nodes(run, fl, mod_test, "the test of the delta's modified map")
+        R.require_nodes(run, fl, no_effect, "a `return false` after the has_value guard")
+        run.count(1, "C20.m")
+        w = fl.must_precede(mod_test, no_effect)
+        if w is not None:
+            run.finding("C20.m", "delta_has_effect_tsd:no-effect-before-modified-test", "delta_has_effect_tsd can answer `no effect` for a delta whose `modified` map was never looked "
+                        f"at: a recorded tick {{removed: [absent key], modified: {{k: v}}}} is skipped on replay: {fl.path_text(w)}", loc=fl.cfg.describe(w[-1][0]))
+        # and a non-empty modified map means `has an effect`
+        cn_m = R.aliases_of(fa)
+        tests = [s0 for s0 in fa.body.walk() if isinstance(s0, C.If) and "tsd_delta_modified" in sub(cn_m(s0.cond)) and "size()" in cn_m(s0.cond) and
+                 re.search(r"!=0|0!=", cn_m(s0.cond).replace(" ", ""))]
+        tests = [s0 for s0 in tests if [R.Canon()(r.e) for r in R.find(s0.then, lambda x: isinstance(x, C.Return))] == ["true"]]
+        if not tests:
+            run.finding("C20.m", "delta_has_effect_tsd:modified-not-an-effect", "a delta with a non-empty `modified` map must have an effect (return true)", loc=fa.loc(fa.body))
+
 
 def _method(run: Run, struct: str, name: str) -> C.FuncAST:
     fi = run.tree.file(MEM)
@@ -526,6 +553,7 @@ def _check_capture(run: Run, fa: C.FuncAST, sources, fname: str, via=None) -> No
 
 
 VARIANTS = [
+    {"id": "m-seed-C20-5-modified-test-after-lenient-removals", "expect": "C20.m", "edits": [{"file": DELTA, "find": "            assert(delta_field_is(delta, tsd_delta_modified, \"modified\"));\n            const auto modified = bundle.at(tsd_delta_modified).as_map();\n            if (modified.size() != 0) { return true; }\n", "replace": ""}, {"file": DELTA, "find": "            // The empty-tick validation rule, as for TSS.\n            return !out.valid();\n        }\n\n        bool delta_has_effect_tsl", "replace": "            if (bundle.at(tsd_delta_modified).as_map().size() != 0) { return true; }\n            // The empty-tick validation rule, as for TSS.\n            return !out.valid();\n        }\n\n        bool delta_has_effect_tsl"}]},
     {"id": "k-current-dict-recurses-per-cycle", "expect": "C20.k", "edits": [{"file": DELTA, "find": "                Value child_delta = capture_current_delta(child);\n                modified.set_item(key, child_delta.view());", "replace": "                Value child_delta = capture_delta(child);\n                modified.set_item(key, child_delta.view());"}]},
     {"id": "l-recovery-cycle-drops-live-tick", "expect": "C20.l", "edits": [{"file": "include/hgraph/lib/std/component.h", "find": "                    if (recovered.has_value()) { out.apply(recovered.view()); }\n                    initialized.set(true);", "replace": "                    initialized.set(true);\n                    if (recovered.has_value()) { out.apply(recovered.view()); return; }"}]},
     {"id": "j-mutable-list-copy-drops-holes", "expect": "C20.j", "edits": [{"file": "include/hgraph/types/value/mutable_container_ops.h", "find": "                slots_ = ValueSlotStore{};  // unbound; destroys any prior payloads\n                return;", "replace": "                slots_ = ValueSlotStore{};  // unbound; destroys any prior payloads\n                validity_ = other.validity_;\n                return;"}, {"file": "include/hgraph/types/value/mutable_container_ops.h", "find": "                ++size_;\n            }\n            validity_ = other.validity_;\n", "replace": "                ++size_;\n            }\n"}]},
